@@ -55,7 +55,7 @@ func (c *Chain) ExportImport(vo ViewOpts) (rep M, nc *Chain, err error) {
 		rep["genesis"] = g // the exported content itself, in the vocabulary of spec/Genesis.tla
 	} else {
 		rep["genesis"] = M{"aol": M{"owners": []any{}, "topics": []any{}, "writers": []any{}, "records": []any{}}, "did": []any{}, "denoms": []any{}, "pnfts": []any{},
-			"nDenoms": 0, "nPnfts": 0, "junk": []any{"unparsable: " + e.Error()}}
+			"nDenoms": 0, "nPnfts": 0, "fillers": 0, "junk": []any{"unparsable: " + e.Error()}}
 	}
 	rep["exportTwiceEqual"] = bytes.Equal(exp1.AppState, exp2.AppState)
 	// custom modules' own genesis validation
